@@ -11,7 +11,7 @@ from mc import core, fixtures as fx, rthist
 from mc.ref import rt, opac
 
 ID = 'C01'
-RULE = ('two phases.  histories: one live model, every sequence of parameter updates (21 letters over 11 fitted / '
+RULE = ('two phases.  histories: one live model, every sequence of parameter updates (22 letters over 11 fitted / '
         'star parameters) up to depth 2 (thorough 3), depth 3 (4) over a 7-letter sub-alphabet, evaluated after every '
         'update and compared with a fresh model holding the net settings.  inputs: cases = full product of the core dimensions (layers x opacity magnitude x contribution subset x '
         'path method) plus every case with <= 2 deviations from the default letter over all 10 dimensions '
@@ -273,16 +273,32 @@ HIST_ALPHABET = [['T', 800.0], ['T', 1800.0], ['planet_radius', 0.8], ['planet_r
                  ['He_H2', 0.05], ['He_H2', 0.6], ['atm_max_pressure', 1e5], ['atm_max_pressure', 1e7],
                  ['atm_min_pressure', 1e-3], ['atm_min_pressure', 1e1], ['clouds_pressure', 1e2],
                  ['clouds_pressure', 3e4], ['flat_mix_ratio', 1e-33], ['flat_mix_ratio', 1e-29],
-                 ['lee_mie_mix_ratio', 1e-16], ['lee_mie_mix_ratio', 1e-9], ['star_radius', 4e8]]
+                 ['lee_mie_mix_ratio', 1e-16], ['lee_mie_mix_ratio', 1e-9], ['star_radius', 4e8],
+                 # mass and radius written together to a pair with the surface gravity of the start
+                 ['__multi__', [['planet_mass', 4.0], ['planet_radius', 2.0]]]]
+# requested spectral windows of equal length at both ends of the native grid, and the full grid again
+HIST_ALPHABET += [['__window__', [1000.0, 2000.0]], ['__window__', [3000.0, 4000.0]], ['__window__', None]]
 HIST_REDUCED = [['T', 800.0], ['T', 1800.0], ['planet_mass', 0.5], ['clouds_pressure', 1e2], ['clouds_pressure', 3e4],
                 ['H2O', 1e-3], ['atm_max_pressure', 1e5]]
+
+
+# a node-based temperature profile whose interior node lies between the two topmost layers: T_top then moves the
+# top layer alone (its thickness, not the altitude of any layer bottom), T_surface only the layers below the node
+NPOINT_ALPHABET = [['T_top', 400.0], ['T_top', 2200.0], ['T_surface', 2100.0], ['T_point1', 600.0],
+                   ['T_point1', 1900.0], ['planet_mass', 0.5], ['H2O', 1e-3], ['atm_min_pressure', 1e-3]]
 
 
 def hist_build(case):
     fx.reset_caches()
     c = {'mag': 'tau1', 'mode': 'linear'}
     install(c, 1.0)
-    spec = {'kind': 'transmission', 'N': case['N'], 'T': ['iso', 1200.0], 'path': case['path'],
+    T = ['iso', 1200.0]
+    if case.get('T') == 'npoint':
+        # layer pressures of the standard grid 1e6 .. 1e-1 Pa: the node goes between the two topmost of them
+        lev = np.logspace(6, -1, case['N'] + 1)
+        lay = np.sqrt(lev[:-1] * lev[1:])
+        T = ['npoint', float(np.sqrt(lay[-1] * lay[-2]))]
+    spec = {'kind': 'transmission', 'N': case['N'], 'T': T, 'path': case['path'],
             'gases': [['H2O', ['const', 1e-4]], ['CH4', ['const', 3e-5]]],
             'contribs': ['abs', ['cia', ['H2-H2', 'H2-He']], 'ray', ['clouds', 1e3],
                          ['flat', {'flat_mix_ratio': 1e-31, 'flat_topP': 3e0, 'flat_bottomP': 2e4}],
@@ -313,6 +329,8 @@ def explore(ctx):
         hs = rthist.histories(HIST_ALPHABET, 3, HIST_REDUCED, 4)
         cfgs = [(4, 'old'), (3, 'new'), (2, 'old'), (5, 'new')]
     hcases = [{'N': n, 'path': pth, 'hist': h} for (n, pth) in cfgs for h in hs]
+    hn = rthist.histories(NPOINT_ALPHABET, 2 if ctx.tier == 'quick' else 3)
+    hcases += [{'N': n, 'path': pth, 'T': 'npoint', 'hist': h} for (n, pth) in cfgs[:2] for h in hn]
     ctx.bounds.update(history_depth_full_alphabet=2 if ctx.tier == 'quick' else 3,
                       history_depth_reduced_alphabet=3 if ctx.tier == 'quick' else 4, histories=len(hcases))
     ctx.run_cases('hist_fn', hcases, phase='histories')
